@@ -1462,18 +1462,23 @@ class ClassicChannel(utils.EventEmitter):
                 case L2CAP_Configure_Request.ParameterType.FCS:
                     enabled = option[1][0] != 0
                     logger.debug("Peer requests FCS: %s", enabled)
-                    if (
+                    if not enabled:
+                        # "No FCS" is always acceptable (FCS is still used if we
+                        # asked for it ourselves)
+                        replied_options.append(option)
+                    elif (
                         L2CAP_Information_Request.ExtendedFeatures.FCS_OPTION
                         in self.manager.extended_features
                     ):
-                        self.fcs_enabled = enabled
+                        self.fcs_enabled = True
                         replied_options.append(option)
                     else:
                         logger.error("Frame Check Sequence is not supported")
                         result = (
                             L2CAP_Configure_Response.Result.FAILURE_UNACCEPTABLE_PARAMETERS
                         )
-                        replied_options = [option]
+                        # Reply with the value that would be acceptable: no FCS
+                        replied_options = [(option[0], bytes([0]))]
                         break
                 case _:
                     logger.debug(
@@ -1532,6 +1537,11 @@ class ClassicChannel(utils.EventEmitter):
             == L2CAP_Configure_Response.Result.FAILURE_UNACCEPTABLE_PARAMETERS
         ):
             # Re-configure with what's suggested in the response
+            for option in L2CAP_Control_Frame.decode_configuration_options(
+                response.options
+            ):
+                if option[0] == L2CAP_Configure_Request.ParameterType.FCS:
+                    self.fcs_enabled = option[1][0] != 0
             self.send_control_frame(
                 L2CAP_Configure_Request(
                     identifier=self.manager.next_identifier(self.connection),
